@@ -56,7 +56,7 @@ def run(check):
                   "deployed first, or left free, plus random delay plans; monitor: every exec-start / deploy-call is preceded in the log by the "
                   "production event of everything it refers to, and the logged input equals the reference evaluation over the logged values; plus step inputs with a "
                   "field that cannot be evaluated (the step must not be started without it) and programs with members that are ready from the start under "
-                  "multi-site delay plans; (h) output logging with a slow log target while other steps complete; (j) deploy-time expressions that differ between repeated runs and loop items of one prepared workflow; (i) inputs read from an input file whose scalars a type-resolving "
+                  "multi-site delay plans; (h) output logging with a slow log target while other steps complete; (k) objects of the data model used by several consumers one after the other (loop result through !ordisabled, input list looped over twice); (j) deploy-time expressions that differ between repeated runs and loop items of one prepared workflow; (i) inputs read from an input file whose scalars a type-resolving "
                   "YAML reader would re-type (leading zeros, hex, underscores, yes/no): steps must be given the text / base-ten value the declared schema yields; "
                   "(h) output logging with a slow log target while other steps complete; (i) inputs read from an input file whose scalars a type-resolving YAML reader would re-type (leading zeros, hex, underscores, yes/no); non-trivial = at least one cross-step reference; distinct = (shape, referencing field kinds, consumer-first gating, arrival order)")
     check.assumptions = ["values carry provenance: every scripted step derives its output from its input and its own name"]
@@ -275,6 +275,36 @@ def run(check):
         b = gen.plugin_step("b", gen.tagref("a"), extra_input={"a": dict({"s": Expr(In("s")), "i": Expr(In("i"))}, **({"ls": Expr(In("ls"))} if "ls" in doc else {})), "n": Expr(In("i"))})
         prog = Program([b, a], {"success": {"b": gen.tagref("b"), "all": Expr(In())}}, fsch)
         file_cases.append(({"id": "c02-i%04d" % j, "mode": "engine", "files": prog.files(), "scripts": gen.make_scripts([a, b], {}), "runs": [], "extra": {"engine": {"input_yaml": text}}}, text, doc))
+    # (k) objects of the data model that several consumers refer to one after the other: a loop's whole result taken through
+    # !ordisabled by one step and handed on as it is to a later one; a list of the workflow input looped over by one loop and then
+    # by another (and echoed in the output): what the later consumer sees is exactly what the producer emitted
+    from ..model import OrDisabled
+    shared = []
+    for j in range(check.pick(16, 80)):
+        rng = random.Random(derive_seed(check.seed, "c02-shared", j))
+        tags = ["s%d_%d" % (j, q) for q in range(rng.choice([2, 3]))]
+        if j % 2 == 0:
+            producer = Step("producer", "foreach", sub=gen.sub_program("sub.yaml", 1), items=Expr(In("items")), parallelism=rng.choice([1, 2]))
+            gate = gen.plugin_step("gate", Expr(In("tag")), wait_for=OrDisabled(Ref("producer", "outputs", "success")))
+            if j % 4 == 2:
+                gate = gen.plugin_step("gate", Expr(In("tag")), extra_input={"a": OrDisabled(Ref("producer", "outputs", "success"))})
+            later = gen.plugin_step("later", gen.tagref("gate"), extra_input={"a": Expr(Ref("producer", "outputs", "success"))})
+            steps = [producer, gate, later]
+            rng.shuffle(steps)
+            prog = Program(steps, {"success": {"l": gen.tagref("later"), "p": Expr(Ref("producer", "outputs", "success"))}}, gen.BASE_INPUT)
+            want = {"data": [{"t": "sub_w0(%s)" % t} for t in tags]}
+            shared.append(({"id": "c02-s%04d" % j, "files": prog.files(), "scripts": gen.make_scripts(steps, {}), "runs": [{"input": {"tag": "T", "items": [{"tag": t} for t in tags]}}]}, "later", "a", want, "p",
+                           "loop result taken through !ordisabled and handed on"))
+        else:
+            l1 = Step("l1", "foreach", sub=gen.sub_program("sub.yaml", 1), items=Expr(In("items")), parallelism=rng.choice([1, 2]))
+            l2 = Step("l2", "foreach", sub=gen.sub_program("sub2.yaml", 1), items=Expr(In("items")), wait_for=Expr(Ref("l1", "outputs", "success")))
+            echo = gen.plugin_step("echo", Expr(In("tag")), extra_input={"a": Expr(In("items"))}, wait_for=Expr(Ref("l2", "outputs", "success")))
+            steps = [l1, l2, echo]
+            rng.shuffle(steps)
+            prog = Program(steps, {"success": {"d1": Expr(Ref("l1", "outputs", "success", "data")), "d2": Expr(Ref("l2", "outputs", "success", "data")), "items": Expr(In("items")), "e": gen.tagref("echo")}}, gen.BASE_INPUT)
+            want = [{"tag": t} for t in tags]
+            shared.append(({"id": "c02-s%04d" % j, "files": prog.files(), "scripts": gen.make_scripts(steps, {}), "runs": [{"input": {"tag": "T", "items": [{"tag": t} for t in tags]}}]}, "echo", "a", want, "items",
+                           "input list looped over twice and echoed"))
     # (j) deploy-time expressions whose value differs from run to run of one prepared workflow (repeated Execute calls, items of
     # a loop): every deployment is made with the configuration its own run evaluated
     redeploy = []
@@ -297,9 +327,30 @@ def run(check):
     with harness.Runner() as rn:
         runfam.run_and_monitor(check, rn, items, {"C02"}, on_result=on_result, monitor=monitor)
         dout = rn.run_cases([c for c, _s, _t, _h in redeploy])
+        shout = rn.run_cases([c for c, _a, _b, _c, _d, _e in shared])
         seq_out = rn.run_cases([c for c, _s in seq_cases])
         wout = rn.run_cases([{k: v for k, v in c.items() if k != "what"} for c in whole])
         fout = rn.run_cases([c for c, _t, _d in file_cases])
+    for case, src, field, want, outkey, what in shared:
+        o = shout.get(case["id"], {})
+        check.count()
+        res = o.get("result") or {}
+        if "result" not in o or res.get("prepare_err") or res.get("parse_err"):
+            check.inconclusive_case(case["id"], str(o.get("death", {}).get("key") or res.get("prepare_err") or res.get("parse_err")))
+            continue
+        run = (res.get("runs") or [{}])[0]
+        got_in = [ref.denum((e.get("data") or {}).get("raw") or {}).get(field) for e in res.get("events") or [] if e["kind"] == "exec-start" and e["src"] == src]
+        data = ref.denum(run.get("data")) or {}
+        if run.get("err") or not got_in:
+            check.report("shared@run-failed", "%s: the run failed or the last consumer did not run: %s" % (what, (run.get("err") or "no execution of %s" % src)[:200]), {"case": case})
+        else:
+            for label, got in (("step %s" % src, got_in[0]), ("workflow output member %r" % outkey, data.get(outkey))):
+                m = ref.match(want, got)
+                if m:
+                    check.report("shared@object-changed-between-consumers", "%s: %s was given something else than the producer emitted: %s (got %r)" % (what, label, m, got), {"case": case})
+            if "d2" in data and [x.get("t") for x in data.get("d2") or []] != ["sub2_w0(%s)" % x["tag"] for x in want]:
+                check.report("shared@object-changed-between-consumers", "%s: the second loop did not work on the items of the input: %r" % (what, data.get("d2")), {"case": case})
+        check.nontrivial("shared|" + what)
     for case, src, tags, how in redeploy:
         o = dout.get(case["id"], {})
         check.count()
